@@ -34,9 +34,6 @@ theorem call_ok {dens : Nat → Pt → Rat} {st st' : State} {inp : Input} {r : 
   split at h
   · exact absurd h (by simp)
   next pts hpts =>
-  split at h
-  · exact absurd h (by simp)
-  next hr =>
   dsimp only at h
   split at h
   · exact absurd h (by simp)
@@ -70,16 +67,10 @@ theorem test_ok {dens : Nat → Pt → Rat} {st st' : State} {inp : Input} {r : 
   split at h
   · exact absurd h (by simp)
   next pts hpts =>
-  split at h
-  · exact absurd h (by simp)
-  next hr =>
   dsimp only at h
   split at h
   · exact absurd h (by simp)
   next hk =>
-  split at h
-  · exact absurd h (by simp)
-  next h1d =>
   split at h
   · exact absurd h (by simp)
   next hu =>
@@ -209,9 +200,6 @@ theorem call_congr (dens : Nat → Pt → Rat) {a b : State} (h : SameLearned a 
   | error e => rfl
   | ok pts =>
     dsimp only
-    cases (inp.pre.isNone && removalRaises b.sc.length pts)
-    swap
-    · rfl
     cases (keptOf pts).isEmpty
     swap
     · rfl
@@ -231,13 +219,7 @@ theorem test_congr (dens : Nat → Pt → Rat) {a b : State} (h : SameLearned a 
   | error e => rfl
   | ok pts =>
     dsimp only
-    cases (inp.pre.isNone && removalRaises b.sc.length pts)
-    swap
-    · rfl
     cases (keptOf pts).isEmpty
-    swap
-    · rfl
-    cases (b.sc.length == 1 && !b.omitted.isEmpty && !(unlabelled (keptOf pts)).isEmpty)
     swap
     · rfl
     cases (labelled (keptOf pts)).isEmpty
